@@ -64,7 +64,7 @@ func (cs *c07Case) UnmarshalJSON(b []byte) error {
 func init() {
 	engine.Register(&engine.Check{
 		ID: "C07", Level: "exploration",
-		Rule:        "round trip: universe U in XY, XYZ, XYM, XYZM, Layout(5), Layout(7) + collections (mixed layouts, empty members, nesting <=3) + a float lattice in points: Marshal output read by an independent RFC 7946 reader (same type, nesting, numbers) and by Unmarshal / Encode+Decode (equal to the model with the format carve-outs COMPUTED from the model: layout from the first position, empty => XY, arity mismatch => error); Features: id {absent,'a','0','1e3'} (plus ~300 string ids: every ASCII character alone and embedded, 15 characters beyond ASCII up to U+10FFFF, JSON look-alikes) x bbox {absent, XY, XYZ, antimeridian-crossing XY (west > east), XYZ with a reversed third axis, degenerate} x properties {nil,{},nested} x geometry {nil, each kind}; FeatureCollections of 0..2 features x bbox. Totality: grammar-directed enumeration of documents (type x coordinates menu x geometries menu; Feature id x bbox x geometry x properties menus; FeatureCollection menus) plus every prefix, every single-byte deletion and every single-byte substitution (12-byte structural menu) of valid documents, and every JSON value of nesting depth <=3 (+1 wrapping level) over arrays of 0..2 elements with leaves {1,null,\"a\"} (thorough: also 2.5 and {}) as the coordinates of every geometry type, decoded as geometry, Feature and FeatureCollection: no panic; error or well-formed result. distinct_nontrivial = distinct documents / geometries with at least one position or one member Also: a lattice of ~1100 numeric Feature ids (+-2^k and neighbours to 2^70, powers of ten to 1e22, integral values between 2^63 and 1e19) and two-step histories in which the document returned by Feature.MarshalJSON is kept while a shorter, an equally long and a longer document are marshalled. Round 7: every geometry round trip again with the encoder's bounding-box option, CRS option and both. Round 8: all round trips again with geojson.DefaultLayout set to XYZ, XYM and XYZM. Round 9: property maps whose keys are spelled like members of the Feature object (id, type, bbox, geometry, properties); decoding into a used Feature. Round 10: one FeatureCollection variable decoded into twice - features kept from the first decode keep their values.",
+		Rule:        "round trip: universe U in XY, XYZ, XYM, XYZM, Layout(5), Layout(7) + collections (mixed layouts, empty members, nesting <=3) + a float lattice in points: Marshal output read by an independent RFC 7946 reader (same type, nesting, numbers) and by Unmarshal / Encode+Decode (equal to the model with the format carve-outs COMPUTED from the model: layout from the first position, empty => XY, arity mismatch => error); Features: id {absent,'a','0','1e3'} (plus ~300 string ids: every ASCII character alone and embedded, 15 characters beyond ASCII up to U+10FFFF, JSON look-alikes) x bbox {absent, XY, XYZ, antimeridian-crossing XY (west > east), XYZ with a reversed third axis, degenerate} x properties {nil,{},nested} x geometry {nil, each kind}; FeatureCollections of 0..2 features x bbox. Totality: grammar-directed enumeration of documents (type x coordinates menu x geometries menu; Feature id x bbox x geometry x properties menus; FeatureCollection menus) plus every prefix, every single-byte deletion and every single-byte substitution (12-byte structural menu) of valid documents, and every JSON value of nesting depth <=3 (+1 wrapping level) over arrays of 0..2 elements with leaves {1,null,\"a\"} (thorough: also 2.5 and {}) as the coordinates of every geometry type, decoded as geometry, Feature and FeatureCollection: no panic; error or well-formed result. distinct_nontrivial = distinct documents / geometries with at least one position or one member Also: a lattice of ~1100 numeric Feature ids (+-2^k and neighbours to 2^70, powers of ten to 1e22, integral values between 2^63 and 1e19) and two-step histories in which the document returned by Feature.MarshalJSON is kept while a shorter, an equally long and a longer document are marshalled. Round 7: every geometry round trip again with the encoder's bounding-box option, CRS option and both. Round 8: all round trips again with geojson.DefaultLayout set to XYZ, XYM and XYZM. Round 9: property maps whose keys are spelled like members of the Feature object (id, type, bbox, geometry, properties); decoding into a used Feature. Round 10: one FeatureCollection variable decoded into twice - features kept from the first decode keep their values. Round 12: every geometry of the round-trip corpus as the geometry of a Feature and of a two-feature FeatureCollection.",
 		Run:         c07Run,
 		Replay:      func(c *engine.Ctx, kind string, raw json.RawMessage) { c07Exec(c, decodeCase[c07Case](raw)) },
 		Assumptions: []string{"finite ordinates; geojson.DefaultLayout at its default XY; encoding/json and ref.ParseGeoJSON trusted"},
@@ -683,6 +683,16 @@ func c07Run(c *engine.Ctx) {
 			}
 		}
 	}
+	// every geometry of the round-trip corpus (all kinds x XY..XYZM, Layout(5), Layout(7),
+	// collections) as the geometry of a Feature and of the features of a FeatureCollection
+	c.Parallel(len(corpus), func(i int) {
+		if _, mustErr := c07Expect(corpus[i]); mustErr {
+			return // not expressible (a null first position); the geometry round trip demands the error
+		}
+		c.Count("corpus_features", 1)
+		c07Exec(c, c07Case{Mode: "feature", G: corpus[i], ID: "a", Props: 1})
+		c07Exec(c, c07Case{Mode: "fc", G: corpus[i], ID: "a", Props: 1, NFeat: 2})
+	})
 	// string ids: every ASCII character (control characters, DEL, quote, backslash, the characters
 	// encoding/json escapes for HTML) alone and embedded, and characters beyond ASCII up to the
 	// last code point incl. unassigned and non-printable ones above U+FFFF: the document must be
